@@ -42,6 +42,9 @@ class DivisionByZero(NotEvaluable):
     """A quotient whose divisor is zero at the evaluated point (0 / 0 = NaN in floating point): a finding, not a limit of the fragment."""
 
 
+_FUNCTION_FORMS = {"sort", "flatten", "unsqueeze", "squeeze", "transpose", "gather", "masked_fill", "masked_select", "masked_scatter", "clamp", "clamp_min",
+                   "clamp_max", "abs", "neg", "prod", "square", "sqrt", "eq", "ne", "lt", "le", "gt", "ge", "tril", "triu", "repeat_interleave", "unique_consecutive",
+                   "t", "numel", "reshape", "expand_as", "view_as", "movedim"}
 IDENTITY_METHODS = {"float", "double", "long", "int", "to", "contiguous", "clone", "detach", "type_as", "cpu"}
 
 
@@ -366,7 +369,8 @@ def _call_impl(c: ast.Call, ev, t: str):
         return np.where(cond, _as_exact(a), _as_exact(b))
     if name in ("torch.zeros_like", "torch.ones_like") and c.args:
         x = ev(c.args[0])
-        if _is_arr(x) and x.dtype == bool:
+        dt = next((ev(k.value) for k in c.keywords if k.arg == "dtype"), None)
+        if (dt is None and _is_arr(x) and x.dtype == bool) or dt == "<torch.bool>":
             return np.zeros(x.shape, dtype=bool) if name.endswith("zeros_like") else np.ones(x.shape, dtype=bool)
         return frac_array(np.zeros(x.shape, dtype=int) if name.endswith("zeros_like") else np.ones(x.shape, dtype=int))
     if name == "torch.full_like" and len(c.args) >= 2:
@@ -479,6 +483,9 @@ def _call_impl(c: ast.Call, ev, t: str):
         v = ev(c.args[0])
         if _is_arr(v) or isinstance(v, tuple):
             return len(v)
+    if name.startswith("torch.") and name.count(".") == 1 and c.args and name[6:] in _FUNCTION_FORMS:
+        # `torch.sort(x, 1)` is `x.sort(1)`
+        return _call_impl(ast.Call(func=ast.Attribute(value=c.args[0], attr=name[6:], ctx=ast.Load()), args=list(c.args[1:]), keywords=list(c.keywords)), ev, t)
     if not isinstance(f, ast.Attribute):
         raise NotEvaluable(t[:50])
     x = ev(f.value)
